@@ -40,6 +40,15 @@ def q5(x) -> int:
     return n
 
 
+def text_num(s: str, conv) -> dict:
+    """A number AS WRITTEN: its value plus `nz` = 1 for a negative zero token ("-0.000"): the sign of a zero matters for
+    the equality of two texts (fixed point), not for the value clauses, which look at the object read back."""
+    v = conv(Decimal(s))
+    zero = (v == 0) if isinstance(v, int) else (v["a"] == 0 and v["f"] == 0)
+    nz = 1 if zero and s.lstrip().startswith("-") else 0
+    return {"v": v, "nz": nz} if isinstance(v, int) else {**v, "nz": nz}
+
+
 def split_tok(t: str) -> dict:
     pre, _, suf = t.partition(".")
     return {"pre": pre, "suf": suf}
@@ -250,16 +259,16 @@ def tokenize(text: str) -> list:
         p = s.split()
         try:
             if sec == "ATOM":
-                row = {"lab": p[1], "xyz": [af(Decimal(p[2])), af(Decimal(p[3])), af(Decimal(p[4]))],
-                       "tok": split_tok(p[5]), "q": q5(Decimal(p[8])) if len(p) > 8 else 0, "raw": ""}
+                row = {"lab": p[1], "xyz": [text_num(p[2], af), text_num(p[3], af), text_num(p[4], af)],
+                       "tok": split_tok(p[5]), "q": text_num(p[8], q5) if len(p) > 8 else {"v": 0, "nz": 0}, "raw": ""}
             else:
                 a, b = int(p[1]), int(p[2])
                 row = {"a": min(a, b), "b": max(a, b), "tok": p[3], "raw": ""}
         except Exception:
             # a row this tokenizer cannot split (e.g. glued columns): kept verbatim.  The text is free in the contract,
             # it is only compared with the second text; whether molli's own reader copes is decided by the read step.
-            z = {"a": 0, "f": 0}
-            row = ({"lab": "?", "xyz": [z, z, z], "tok": {"pre": "?", "suf": ""}, "q": 0, "raw": s} if sec == "ATOM"
+            z = {"a": 0, "f": 0, "nz": 0}
+            row = ({"lab": "?", "xyz": [z, z, z], "tok": {"pre": "?", "suf": ""}, "q": {"v": 0, "nz": 0}, "raw": s} if sec == "ATOM"
                    else {"a": 0, "b": 0, "tok": "?", "raw": s})
         cur["atoms" if sec == "ATOM" else "bonds"].append(row)
     return blocks
